@@ -445,7 +445,7 @@ func DrawSeq(t *rapid.T, n int, families []string) Seq {
 		q.A = max(1, min(n, z))
 		q.B = rapid.IntRange(0, 1).Draw(t, "down")
 	case "debruijn":
-		q.A = rapid.IntRange(1, 8).Draw(t, "order")
+		q.A = rapid.IntRange(1, 12).Draw(t, "order")
 		q.B = rapid.IntRange(0, 1<<uint(q.A)-1).Draw(t, "rotation")
 		q.Pos = []int{rapid.IntRange(0, 1).Draw(t, "complement")}
 	case "tone":
